@@ -262,6 +262,20 @@ func checkMethod(c methodCase) evid.Outcome {
 	if !bytes.Equal(got, want) {
 		return evid.Fail("PHYPayload.EncryptFOpts (uplink=%v FPort=%d => AFCntDown variant %v, FCnt=%#x) gives %x, specification %x", up, f.FPort, aFCntDown, f.FCnt, got, want)
 	}
+	if len(f.FOpts) > 0 {
+		// the same FOpts on a frame value whose FPort is present and 0 with nothing behind it (the frame encoder refuses that
+		// combination later; this method runs before it): refused, or transformed with the variant for "FPort not above 0"
+		g := *f
+		g.FPort, g.FRM = 0, nil
+		if q, err := gen.ToLib(&g, c.Build == "cmds"); err == nil {
+			if err := q.EncryptFOpts(gen.LibKey(k)); err == nil {
+				after, _ := gen.PayloadsToBytes(up, q.MACPayload.(*lorawan.MACPayload).FHDR.FOpts)
+				if w := ref.FOptsStream(k, false, up, g.DevAddr, g.FCnt, g.FOpts); !bytes.Equal(after, w) {
+					return evid.Fail("PHYPayload.EncryptFOpts on a frame with FOpts %x and FPort 0 (uplink=%v FCnt=%#x) reports success with %x; the AFCntDown variant is for downlinks with FPort above 0 only, the specification keystream here gives %x", g.FOpts, up, g.FCnt, after, w)
+				}
+			}
+		}
+	}
 	if err := p.DecryptFOpts(gen.LibKey(k)); err != nil {
 		return evid.Fail("PHYPayload.DecryptFOpts: %v", err)
 	}
